@@ -511,4 +511,5 @@ func runC11(c *Ctx) {
 	reportLock(c, runLock(p, lc), lc)
 
 	runC11Lifecycle(c, names)
+	runC11Watchers(c)
 }
